@@ -667,11 +667,30 @@ func c18topicfilter(c *an.Ctx) {
 						return fv.Name() == fn.Params[selIdx].Name()
 					}
 				}
+				// the filter kept in a field of a state struct the enclosing function filled from its parameter
+				if fv, fld := capturedField(v); fv != nil {
+					if val := capturedFieldValue(w, fv, fld); val != nil && isParam(an.Strip(val), fn, selIdx) {
+						return true
+					}
+				}
 				return false
 			}
 			q := &an.PathQ{Fn: w, StartEntry: true, FullOnly: true,
 				Sink: func(i2 ssa.Instruction, _ *an.PathState) bool { return i2 == ssa.Instruction(call) },
 				CutEdge: func(e an.Edge, ps *an.PathState) bool {
+					// `allTopics := selectedTopic == ""` computed by the enclosing function and captured
+					for _, f := range ps.FactsOnEdge(e) {
+						if !f.True {
+							continue
+						}
+						for _, o := range capturedOrigins(w, f.V) {
+							if b, ok := an.Strip(o).(*ssa.BinOp); ok && b.Op == token.EQL {
+								if s, isC := an.ConstString(b.Y); isC && s == "" && isParam(an.Strip(b.X), fn, selIdx) {
+									return true
+								}
+							}
+						}
+					}
 					for _, cmp := range ps.CmpsOnEdge(e) {
 						if cmp.Op != token.EQL {
 							continue
